@@ -595,6 +595,145 @@ Lemma zero_length_read_panics :
   rtx_unwrap 96 1 (32 :: repeat 0 75) 0 = Panic.
 Proof. reflexivity. Qed.
 
+(* ---------- histories ---------- *)
+
+Lemma land127_lt : forall n, N.land n 127 < 128.
+Proof.
+  intros n. change 127 with (N.ones 7). rewrite N.land_ones.
+  apply N.mod_lt. discriminate.
+Qed.
+
+Section HistoryProofs.
+Variable known : N -> bool.
+
+Lemma check_and_update_pt st b :
+  st_pt (fst (check_and_update known st b)) =
+    match idx b 1 with
+    | Some b1 => if known (N.land b1 127) then N.land b1 127 else st_pt st
+    | None => st_pt st
+    end /\
+  st_ssrc (fst (check_and_update known st b)) = st_ssrc st.
+Proof.
+  unfold check_and_update. destruct (idx b 1) as [b1|]; [|auto].
+  destruct (N.land b1 127 =? st_pt st) eqn:E; cbn [negb orb].
+  - apply N.eqb_eq in E. destruct (st_params st); cbn [negb].
+    + cbn [fst]. rewrite E. destruct (known (st_pt st)); auto.
+    + destruct (known (N.land b1 127)) eqn:K; cbn [fst st_pt st_ssrc]; auto.
+  - destruct (known (N.land b1 127)) eqn:K; cbn [fst st_pt st_ssrc]; auto.
+Qed.
+
+Lemma rtx_step_state st e :
+  st_pt (fst (rtx_step known st e)) = current_pt known (st_pt st) [e] /\
+  st_ssrc (fst (rtx_step known st e)) = st_ssrc st.
+Proof.
+  destruct e as [b n|b i]; cbn [rtx_step current_pt fst]; [|auto].
+  pose proof (check_and_update_pt st b) as [H1 H2].
+  destruct (check_and_update known st b) as [st' ok]. cbn [fst] in *. auto.
+Qed.
+
+Lemma current_pt_app pt0 evs1 evs2 :
+  current_pt known pt0 (evs1 ++ evs2) = current_pt known (current_pt known pt0 evs1) evs2.
+Proof.
+  revert pt0. induction evs1 as [|e t IH]; intros pt0; [reflexivity|].
+  destruct e; cbn [app current_pt]; apply IH.
+Qed.
+
+(* the track's payload type after a history is the specification's, the SSRC
+   never moves *)
+Lemma state_after_spec evs : forall st,
+  st_pt (rtx_state_after known st evs) = current_pt known (st_pt st) evs /\
+  st_ssrc (rtx_state_after known st evs) = st_ssrc st.
+Proof.
+  induction evs as [|e t IH]; intros st; [auto|].
+  unfold rtx_state_after in *. cbn [fold_left].
+  destruct (IH (fst (rtx_step known st e))) as [H1 H2].
+  destruct (rtx_step_state st e) as [H3 H4].
+  rewrite H1, H2, H3, H4. split; auto.
+  change (e :: t) with ([e] ++ t). now rewrite current_pt_app.
+Qed.
+
+Lemma current_pt_lt pt0 evs : pt0 < 128 -> current_pt known pt0 evs < 128.
+Proof.
+  revert pt0. induction evs as [|e t IH]; intros pt0 H; [exact H|].
+  destruct e as [b n|b i]; cbn [current_pt]; apply IH; auto.
+  destruct (idx b 1) as [b1|]; auto. destruct (known _); auto. apply land127_lt.
+Qed.
+
+Lemma history_nth evs1 : forall st e evs2,
+  nth_error (rtx_history known st (evs1 ++ e :: evs2)) (length evs1)
+  = Some (snd (rtx_step known (rtx_state_after known st evs1) e)).
+Proof.
+  induction evs1 as [|e1 t IH]; intros st e evs2.
+  - cbn [app length rtx_history nth_error]. unfold rtx_state_after. cbn [fold_left].
+    destruct (rtx_step known st e). reflexivity.
+  - cbn [app length rtx_history].
+    destruct (rtx_step known st e1) as [st' o] eqn:E. cbn [nth_error].
+    rewrite IH. unfold rtx_state_after. cbn [fold_left]. rewrite E. reflexivity.
+Qed.
+
+Lemma history_length evs : forall st, length (rtx_history known st evs) = length evs.
+Proof.
+  induction evs as [|e t IH]; intros st; [reflexivity|].
+  cbn [rtx_history]. destruct (rtx_step known st e). cbn [length]. now rewrite IH.
+Qed.
+
+(* c26_unwrap lifted to histories: a well-formed repair packet anywhere in any
+   history comes out restored with the primary stream's CURRENT payload type *)
+Lemma unwrap_history : forall st evs1 evs2 h osn rest padding tail,
+  hdr_ok h -> pad_ok h (be_bytes 2 osn ++ rest) padding ->
+  st_pt st < 128 -> st_ssrc st < 4294967296 ->
+  N.of_nat (length (packet h (be_bytes 2 osn ++ rest) padding)) < 65536 ->
+  nth_error
+    (rtx_history known st
+       (evs1 ++ EvRtx (packet h (be_bytes 2 osn ++ rest) padding ++ tail)
+                      (N.of_nat (length (packet h (be_bytes 2 osn ++ rest) padding))) :: evs2))
+    (length evs1)
+  = Some (ObsRtx (Ok (Some (mkRtxOut
+      (packet (restore h osn (current_pt known (st_pt st) evs1) (st_ssrc st)) rest padding)
+      (h_pt h) (h_seq h) (h_ssrc h))))).
+Proof.
+  intros st evs1 evs2 h osn rest padding tail Hok Hpad Hpt Hssrc Hlen.
+  rewrite history_nth. cbn [rtx_step snd].
+  destruct (state_after_spec evs1 st) as [H1 H2]. rewrite H1, H2.
+  rewrite unwrap_ok; auto. now apply current_pt_lt.
+Qed.
+
+(* c26_no_panic lifted to histories *)
+Definition event_in_domain (e : rtx_event) : Prop :=
+  match e with
+  | EvRtx b i => (76 <= length b)%nat /\ 1 <= i /\ (N.to_nat i <= length b)%nat
+  | EvPrimary _ _ => True
+  end.
+
+Lemma history_no_panic evs : forall st,
+  Forall event_in_domain evs ->
+  ~ In (ObsRtx Panic) (rtx_history known st evs).
+Proof.
+  induction evs as [|e t IH]; intros st Hd; [intros []|].
+  inversion Hd as [|? ? He Ht]; subst. cbn [rtx_history].
+  destruct (rtx_step known st e) as [st' o] eqn:E. intros [H|H].
+  - destruct e as [b n|b i]; cbn [rtx_step] in E.
+    + destruct (check_and_update known st b). inversion E as [[Est Eo]]. rewrite <- Eo in H. discriminate.
+    + inversion E as [[Est Eo]]. rewrite <- Eo in H. inversion H as [Hp].
+      destruct He as (A & B & C). eapply no_panic; eauto.
+  - eapply IH; eauto.
+Qed.
+
+End HistoryProofs.
+
+Lemma history_state : forall known st evs,
+  st_pt (rtx_state_after known st evs) = current_pt known (st_pt st) evs /\
+  st_ssrc (rtx_state_after known st evs) = st_ssrc st /\
+  (st_pt st < 128 -> current_pt known (st_pt st) evs < 128).
+Proof.
+  intros known st evs. destruct (state_after_spec known evs st) as [H1 H2].
+  repeat split; auto. apply current_pt_lt.
+Qed.
+
+Lemma history_no_panic' : forall known st evs,
+  Forall event_in_domain evs -> ~ In (ObsRtx Panic) (rtx_history known st evs).
+Proof. intros known st evs. apply history_no_panic. Qed.
+
 (* a non-trivial header for the satisfiability examples of Properties/C26.v *)
 Definition ex_hdr : rtp_hdr :=
   mkHdr 2 true (Some (48862, [16; 170; 0; 0])) 2 [1; 2; 3; 4; 5; 6; 7; 8] true 97 513 90000 2222.
